@@ -1,5 +1,6 @@
 import DDV.Bits.Spec
 import DDV.Driver.Util
+import DDV.Props.C06Ops
 
 /-!
   `ddv-driver ops` — evaluates the codec model and the documented-numbering spec.
@@ -114,6 +115,13 @@ def step (line : String) : String :=
         | _, _, _ => "bad-op"
       | _ => "bad-op"
     | _, _, _, _, _ => "bad-op"
+  | ["F", hexa, hexb] =>
+    -- the value operations of a generated field set (DDV.Props.C06Ops): & | ^ ! and the byte-array round trip
+    match parseHexBytes hexa, parseHexBytes hexb with
+    | some a, some b =>
+      let h := hexOfBytes
+      s!"ok {h (DDV.Props.C06Ops.fsAnd a b)} {h (DDV.Props.C06Ops.fsOr a b)} {h (DDV.Props.C06Ops.fsXor a b)} {h (DDV.Props.C06Ops.fsNot a)} {h (DDV.Props.C06Ops.intoBytes (DDV.Props.C06Ops.fromBytes a))}"
+    | _, _ => "bad-op"
   | _ => "bad-op"
 
 end DDV.Driver.Ops
